@@ -15,7 +15,7 @@ MODULES_UNIFY = ["RotoV.Lemmas.Unify", "RotoV.Model.Unify", "RotoV.Model.UnifyBa
 # the parser: model over the proved lexer model, parse_total / parse_error_spans_ok, and the
 # generated decision tables + call skeletons of src/parser/*.rs pinned to what the model was written against
 PROPS_PARSE = "RotoV.Props.C06Parse"
-MODULES_PARSE = ["RotoV.Model.ParseBase", "RotoV.Model.Parse", "RotoV.Lemmas.ParseLexText", "RotoV.Lemmas.ParseFText", "RotoV.Lemmas.ParseBase", "RotoV.Lemmas.ParsePaths",
+MODULES_PARSE = ["RotoV.Model.ParseBase", "RotoV.Model.Parse", "RotoV.Lemmas.ParseLexText", "RotoV.Lemmas.ParseFText", "RotoV.Lemmas.ParseSub", "RotoV.Lemmas.ParseBase", "RotoV.Lemmas.ParsePaths",
                  "RotoV.Lemmas.ParseTypes", "RotoV.Lemmas.ParseExpr", "RotoV.Lemmas.ParseTop"]
 PROPS_PARSE_SOURCE = "RotoV.Props.C06ParseSource"
 
@@ -54,9 +54,10 @@ def run(ctx):
         "the hand-written parser model (Model/ParseBase, Model/Parse) is tied to src/parser/{mod,expr,filter_map}.rs by the "
         "generated decision tables it reads, by the generated call skeleton of every parser method pinned in "
         "Props/C06ParseSource, and by diffing its outcome (tree shape / error kind + location + hint, and the whole span "
-        "table) against the real parser on every single-file input; the literal decoders (std parse, "
-        "rustc-literal-escaper, unescape_f_string_part) are PARAMETERS of the parser theorems, instantiated per input "
-        "from the real decoders (hook literal_verdict)",
+        "table) against the real parser on every single-file input; the literal decoders proper (which literals std parse / "
+        "rustc-literal-escaper accept, and the escaper's error range relative to its input) are PARAMETERS of the parser "
+        "theorems, instantiated per input from the real decoders (hook literal_verdict; the driver turns the absolute "
+        "location the real parser reports into the relative range, the model redoes the parser's arithmetic on it)",
         "EXPLORATION ONLY (no theorem): type checker bodies (beyond unification / the cycle check), lowering, code "
         "generation and report rendering bodies are covered by the crash oracle — panic / signal / stack overflow / "
         "timeout in a worker process",
